@@ -1217,6 +1217,11 @@ pub fn convert(value: f64, from_unit: &str, to_unit: &str) -> Result<f64> {
         ));
     }
 
+    // Converting a unit to itself is the identity (going through the base unit would round)
+    if std::ptr::eq(from.identifiers, to.identifiers) {
+        return Ok(value);
+    }
+
     // Convert to base unit, then to target unit
     let base_value = from.convert_to_base(value);
     let result = to.convert_from_base(base_value);
